@@ -168,7 +168,7 @@ def main():
             camp.add('replay', sc, coq=False)
         ck.finish()
     r = ck.rng('scenarios')
-    n = 400 if ck.thorough() else 80
+    n = 1200 if ck.thorough() else 80
     n_eval = 0
     for i in range(n):
         if i % 10 == 9:
